@@ -3,6 +3,7 @@ package ast
 import (
 	"fmt"
 	"math/rand"
+	"strings"
 )
 
 // Gen is a type-directed random generator of well-scoped programs in the JSON
@@ -17,15 +18,19 @@ type Gen struct {
 	MapLit  bool // map/set literal heavy weights (C05)
 	NoTry   bool
 
-	scope  [][]string
-	nvar   int
-	inLoop int
-	inFn   int
-	inTern int
+	scope   [][]string
+	nvar    int
+	inLoop  int
+	inFn    int
+	inTern  int
 	inDefer int
-	Hoist  []string
-	consts map[string]bool
-	types  map[string]string
+	// operand > 0 while generating an operand of an enclosing expression since the
+	// innermost loop body started: break/continue are not generated there
+	// (known finding C04-break-in-operand: temporaries stay on the operand stack).
+	operand int
+	Hoist   []string
+	consts  map[string]bool
+	types   map[string]string
 }
 
 func NewGen(r *rand.Rand, budget int) *Gen {
@@ -75,11 +80,11 @@ func (g *Gen) varsOf(t string) []string {
 func (g *Gen) pick(xs []string) string { return xs[g.R.Intn(len(xs))] }
 func (g *Gen) chance(n int) bool       { return g.R.Intn(n) == 0 }
 
-func Int(v int) N        { return N{"k": "int", "v": v} }
-func Bool(v bool) N      { return N{"k": "bool", "v": v} }
-func Str(s string) N     { return N{"k": "str", "v": Cps(s)} }
-func Id(n string) N      { return N{"k": "id", "n": n} }
-func Nil() N             { return N{"k": "nil"} }
+func Int(v int) N             { return N{"k": "int", "v": v} }
+func Bool(v bool) N           { return N{"k": "bool", "v": v} }
+func Str(s string) N          { return N{"k": "str", "v": Cps(s)} }
+func Id(n string) N           { return N{"k": "id", "n": n} }
+func Nil() N                  { return N{"k": "nil"} }
 func Bin(op string, a, b N) N { return N{"k": "bin", "op": op, "a": a, "b": b} }
 func Call(f N, args ...any) N {
 	if args == nil {
@@ -110,6 +115,8 @@ var strPool = []string{"", "a", "bc", "b", "abc", "é", "xyz"}
 
 // texpr generates an expression whose static type guess is `want`.
 func (g *Gen) texpr(d int, want string) N {
+	g.operand++
+	defer func() { g.operand-- }()
 	g.Budget--
 	if g.chance(10) || g.Budget <= 0 {
 		if g.Budget <= 0 {
@@ -299,11 +306,16 @@ func (g *Gen) tmpl(d int) N {
 	n := 1 + g.R.Intn(3)
 	for i := 0; i < n; i++ {
 		if g.chance(2) {
-			parts = append(parts, N{"k": "lit", "v": Cps(g.pick([]string{"x", " ", "a=", "{", "q'"}))})
+			parts = append(parts, N{"k": "lit", "v": Cps(g.pick([]string{"x", " ", "a=", "{", "q'", "#"}))})
 		} else {
-			save := g.inTern
-			parts = append(parts, N{"k": "e", "e": g.texpr(d-1, g.pick([]string{"int", "str", "bool", "list"}))})
-			g.inTern = save
+			e := g.texpr(d-1, g.pick([]string{"int", "str", "bool", "list"}))
+			// the template scanner does not nest braces or single quotes
+			sub := &Renderer{Full: true}
+			sub.Expr(e, "")
+			if strings.ContainsAny(sub.Source(), "{}'\\\n") {
+				e = g.leafOf("int")
+			}
+			parts = append(parts, N{"k": "e", "e": e})
 		}
 	}
 	return N{"k": "tmpl", "parts": parts}
@@ -360,6 +372,8 @@ func (g *Gen) callVar(d int, name string) N {
 
 // expr generates an arbitrary (possibly ill-typed) expression.
 func (g *Gen) expr(d int) N {
+	g.operand++
+	defer func() { g.operand-- }()
 	g.Budget--
 	if d <= 0 || g.Budget <= 0 || g.chance(4) {
 		return g.leaf()
@@ -370,19 +384,19 @@ func (g *Gen) expr(d int) N {
 		return Bin(op, g.expr(d-1), g.expr(d-1))
 	case 3:
 		k := g.pick([]string{"and", "or"})
-		return N{"k": k, "a": g.expr(d-1), "b": g.expr(d-1)}
+		return N{"k": k, "a": g.expr(d - 1), "b": g.expr(d - 1)}
 	case 4:
-		return N{"k": g.pick([]string{"not", "neg"}), "a": g.expr(d-1)}
+		return N{"k": g.pick([]string{"not", "neg"}), "a": g.expr(d - 1)}
 	case 5:
 		if g.inTern > 0 {
 			return g.leaf()
 		}
 		g.inTern++
-		n := N{"k": "tern", "c": g.expr(d-1), "a": g.expr(d-1), "b": g.expr(d-1)}
+		n := N{"k": "tern", "c": g.expr(d - 1), "a": g.expr(d - 1), "b": g.expr(d - 1)}
 		g.inTern--
 		return n
 	case 6:
-		return N{"k": "in", "a": g.expr(d-1), "b": g.expr(d-1), "neg": g.chance(2)}
+		return N{"k": "in", "a": g.expr(d - 1), "b": g.expr(d - 1), "neg": g.chance(2)}
 	case 7:
 		n := g.R.Intn(4)
 		items := []any{}
@@ -393,9 +407,9 @@ func (g *Gen) expr(d int) N {
 	case 8:
 		return g.mapLit(d, g.pick([]string{"int", "str", "list", "any"}))
 	case 9:
-		return N{"k": "idx", "a": g.expr(d-1), "b": g.expr(d-1)}
+		return N{"k": "idx", "a": g.expr(d - 1), "b": g.expr(d - 1)}
 	case 10:
-		a := g.expr(d-1)
+		a := g.expr(d - 1)
 		n := g.pick([]string{"a", "b", "append", "keys"})
 		if n == "append" {
 			return Call(Attr(a, n), g.expr(d-1))
@@ -741,7 +755,8 @@ func (g *Gen) stmt(d int, last bool) N {
 		}
 		return N{"k": "setidx", "a": a, "i": i, "op": g.pick([]string{"=", "+=", "*=", "-="}), "e": g.texpr(d-1, "int")}
 	case c == 9 && len(g.varsOf("map")) > 0:
-		return N{"k": "setattr", "a": Id(g.pick(g.varsOf("map"))), "n": g.pick([]string{"a", "b", "c"}),
+		nm := g.pick([]string{"a", "b", "c"})
+		return N{"k": "setattr", "a": Id(g.pick(g.varsOf("map"))), "n": nm, "ncps": Cps(nm),
 			"op": g.pick([]string{"=", "=", "+="}), "e": g.texpr(d-1, "int")}
 	case c == 10 || c == 11:
 		args := []any{}
@@ -759,7 +774,10 @@ func (g *Gen) stmt(d int, last bool) N {
 		lim := 1 + g.R.Intn(3)
 		g.push()
 		g.inLoop++
+		saveOp := g.operand
+		g.operand = 0
 		body := g.stmts(d-1, 1+g.R.Intn(3))
+		g.operand = saveOp
 		g.inLoop--
 		g.pop()
 		g.pop()
@@ -799,7 +817,10 @@ func (g *Gen) stmt(d int, last bool) N {
 		}
 		g.push()
 		g.inLoop++
+		saveOp := g.operand
+		g.operand = 0
 		body := g.stmts(d-1, 1+g.R.Intn(3))
+		g.operand = saveOp
 		g.inLoop--
 		g.pop()
 		g.pop()
@@ -816,7 +837,10 @@ func (g *Gen) stmt(d int, last bool) N {
 		g.consts[cnt] = true
 		g.push()
 		g.inLoop++
+		saveOp := g.operand
+		g.operand = 0
 		body := g.stmts(d-1, 1+g.R.Intn(2))
+		g.operand = saveOp
 		g.inLoop--
 		g.pop()
 		g.pop()
@@ -830,7 +854,7 @@ func (g *Gen) stmt(d int, last bool) N {
 			loop = N{"k": "for", "init": []any{}, "hascond": true, "cond": Bin("<", Id(cnt), Int(lim)), "post": []any{}, "body": append([]any{inc}, body...)}
 		}
 		return ExprStmt(If(Bool(true), []any{Var(cnt, Int(0)), loop}, nil))
-	case (c == 15 || c == 16) && g.inLoop > 0:
+	case (c == 15 || c == 16) && g.inLoop > 0 && g.operand == 0:
 		k := g.pick([]string{"break", "continue"})
 		cnd := g.texpr(d-1, "bool")
 		if g.chance(3) {
@@ -898,6 +922,11 @@ func (g *Gen) stmt(d int, last bool) N {
 		return N{"k": "multivar", "ns": []any{a, b}, "decl": true, "e": e}
 	case c == 23 && d > 0:
 		return ExprStmt(g.methodCall(d))
+	case (c == 24 || c == 25) && d > 0:
+		if g.chance(2) {
+			return ExprStmt(g.ifExpr(d, "any"))
+		}
+		return ExprStmt(g.switchExpr(d, "any"))
 	case c >= 30 && d > 0:
 		return g.closureStmt(d)
 	default:
